@@ -1,4 +1,6 @@
 mod c13;
+mod specio;
+mod extract;
 mod c19;
 mod fsprops;
 mod pipeline;
@@ -15,6 +17,10 @@ fn arg(args: &[String], name: &str) -> Option<String> {
 fn main() {
     let args: Vec<String> = std::env::args().collect();
     let prop = args.get(1).cloned().unwrap_or_default();
+    if prop == "smoke-extract" {
+        extract::smoke(&args[2..]);
+        return;
+    }
     if prop == "child-gen" {
         std::process::exit(pipeline::child_gen(&args[2..]));
     }
